@@ -124,7 +124,9 @@ type Exec struct {
 	inYield   bool
 	loadInitial bool
 	loadObj   Term
+	curLoop   *loopInfo
 	mapWFDone map[string]bool
+	lastCalleeGhosts map[string]TV
 	sconcatAx bool
 	lemmasUsed map[string]bool
 }
@@ -1066,6 +1068,8 @@ func (ex *Exec) loopContract(fr *Frame, li *loopInfo) *LoopContract {
 }
 
 func (ex *Exec) enterLoop(fr *Frame, li *loopInfo, st *State) {
+	ex.curLoop = li
+	defer func() { ex.curLoop = nil }()
 	lc := ex.loopContract(fr, li)
 	pos := ex.posString(li.minPos)
 	if lc == nil {
@@ -1135,6 +1139,8 @@ func clauseName(c Clause, i int) string {
 }
 
 func (ex *Exec) backEdge(fr *Frame, li *loopInfo, st *State) {
+	ex.curLoop = li
+	defer func() { ex.curLoop = nil }()
 	lc := ex.loopContract(fr, li)
 	if lc == nil {
 		lc = &LoopContract{}
